@@ -927,16 +927,41 @@ func (u *Unit) checkCallFrame(st *State, items []frameItem, all bool, pos token.
 
 // fnID: a stable small integer per static function (identity of function values).
 func (p *Program) fnID(fn *ssa.Function) int {
+	return p.fnIDKey(funcKey(fn))
+}
+
+func (p *Program) fnIDKey(k string) int {
 	if p.fnIDs == nil {
 		p.fnIDs = map[string]int{}
 	}
-	k := funcKey(fn)
 	if id, ok := p.fnIDs[k]; ok {
 		return id
 	}
 	id := len(p.fnIDs) + 1
 	p.fnIDs[k] = id
 	return id
+}
+
+// boundKeys: keys of the bound-method wrappers (x.M used as a value) of the
+// methods called name in from's package; such a value "calls name".
+func (p *Program) boundKeys(from *ssa.Function, name string) []string {
+	if from == nil || from.Pkg == nil {
+		return nil
+	}
+	var out []string
+	for _, m := range from.Pkg.Members {
+		if t, ok := m.(*ssa.Type); ok {
+			for _, recv := range []types.Type{t.Type(), types.NewPointer(t.Type())} {
+				ms := p.ssaProg.MethodSets.MethodSet(recv)
+				for i := 0; i < ms.Len(); i++ {
+					if f := p.ssaProg.MethodValue(ms.At(i)); f != nil && f.Name() == name {
+						out = append(out, funcKey(f)+"$bound")
+					}
+				}
+			}
+		}
+	}
+	return out
 }
 
 // callersOf: the functions of from's package (anonymous ones included) whose body
